@@ -591,7 +591,12 @@ class ParseModel(object):
         if tgt is None or tgt[0] != 'idx' or tgt[1][0] != 'var' or tgt[2] != (V(vi), V(vj)):
             return None
         name = tgt[1][1]
-        if name not in [x for x, _ in self.square] or any(x == V(name) for x in cxx.subterms(val)):
+        if name not in [x for x, _ in self.square]:
+            return None
+        # M may appear in its own defining expression only as the cell being written (an update in place, each cell once:
+        # `M(i, j) = T(i, j) + M(i, j)`): later reads of M(a, b) are then the expression at (a, b) over the table as it was
+        own_cells = sum(1 for x in cxx.subterms(val) if x == tgt)
+        if sum(1 for x in cxx.subterms(val) if x == V(name)) != own_cells:
             return None
         if any(x[0] in ('call', 'mcall', 'assign') for x in cxx.subterms(val) if isinstance(x, tuple) and x):
             return None
